@@ -340,3 +340,58 @@ func virtualCallsTo(root *ssa.Function, target *ssa.Function) []vcall {
 	walk(root, nil, 0)
 	return out
 }
+
+// vinstr is an instruction of a root function or of a transparent helper reached from it,
+// together with the chain of call sites (see vcall).
+type vinstr struct {
+	in    ssa.Instruction
+	chain []ssa.CallInstruction
+}
+
+func (v vinstr) run(fn func()) { vcall{chain: v.chain}.run(fn) }
+
+// virtualInstrs enumerates the instructions of root (without its closures) and, once per call
+// chain, those of the transparent helpers it calls.
+func virtualInstrs(root *ssa.Function) []vinstr {
+	var out []vinstr
+	var walk func(f *ssa.Function, chain []ssa.CallInstruction, depth int)
+	walk = func(f *ssa.Function, chain []ssa.CallInstruction, depth int) {
+		for _, b := range f.Blocks {
+			for _, in := range b.Instrs {
+				out = append(out, vinstr{in, chain})
+				if c, ok := in.(ssa.CallInstruction); ok && depth < 4 {
+					if callee := rawStaticCallee(c); callee != nil && isHelper(callee) {
+						walk(originFn(callee), append(append([]ssa.CallInstruction{}, chain...), c), depth+1)
+					}
+				}
+			}
+		}
+	}
+	walk(root, nil, 0)
+	return out
+}
+
+// blockIn: the block of f that stands for instruction in: its own block, or — when in lies in a
+// transparent helper called (transitively) from f — the block of the call site in f.
+func blockIn(f *ssa.Function, in ssa.Instruction) *ssa.BasicBlock {
+	g := in.Parent()
+	b := in.Block()
+	for hops := 0; hops < 5 && g != nil && g != f; hops++ {
+		top := g
+		for top.Parent() != nil {
+			top = top.Parent()
+		}
+		if top == f {
+			return b // a closure of f: keep its own block
+		}
+		if !isHelper(top) {
+			return b
+		}
+		site := helperCallSite(top)
+		if site == nil {
+			return b
+		}
+		b, g = site.Block(), site.Parent()
+	}
+	return b
+}
